@@ -405,7 +405,7 @@ theorem primeSqrt_noRoot_iff {a p : Nat} (hp : p.Prime) (h2 : p ≠ 2) (ha : a <
     refine ⟨y.val, ?_⟩
     rw [sq_mod_eq_iff ha, ZMod.natCast_zmod_val, hy]
   unfold primeSqrt
-  rw [if_neg h0, if_pos hE]
+  rw [if_neg h0, if_neg h2, if_pos hE]
 
 /-- the three-way classification: on the domain the result is a genuine root or a
     correct report of absence. -/
